@@ -18,6 +18,9 @@ and the representation invariant `Good s`:
   symbol key is written by `dset`, which replaces in place, so it stays the most recent entry of its
   name - this is why the later duplicate key wins the unroll loop, `lv_dset`);  every key is a
   declared name;  `_paramValue` is the unroll of `_parameters`.
+
+Copies: `copies_bind_by_name` (any interleaving of assignments to several live instances and `copy.deepcopy`),
+`restore_preserves_abs`, `setstate_rebuild_counterexample`.
 -/
 import Pygom.Lemmas.Params
 
@@ -609,6 +612,160 @@ theorem pairs_unmentioned_binds_zero (atomic : Bool) (s : State V) (hg : Good s)
   · intro p hp
     obtain ⟨q, hq, rfl⟩ := List.mem_map.mp hp
     exact hn q hq
+
+/-! ## copies and several live instances
+
+A system of live instances: `assign i op` is `instance_i.parameters = ...`, `clone i` appends `copy.deepcopy(instance_i)`
+(`Params.mstep`; the copy is restored by `__setstate__` = `Params.restore false`).  The spec keeps one name -> value map
+per instance; a copy starts with its original's map (`mspecStep`). -/
+
+def mspecStep (params : List String) (fs : List (String → V)) : MOp V → List (String → V)
+  | .assign i op =>
+    match fs[i]? with
+    | some f => fs.set i (if valid params op then Spec.step params f op else f)
+    | Option.none => fs
+  | .clone i =>
+    match fs[i]? with
+    | some f => fs ++ [f]
+    | Option.none => fs
+
+def mspecRun (params : List String) (fs : List (String → V)) (ops : List (MOp V)) : List (String → V) :=
+  ops.foldl (mspecStep params) fs
+
+def Rel (params : List String) (sys : List (State V)) (fs : List (String → V)) : Prop :=
+  sys.length = fs.length ∧
+  ∀ (j : Nat) (s : State V) (f : String → V), sys[j]? = some s → fs[j]? = some f → Good s ∧ s.params = params ∧ Params.abs s = f
+
+/-- as written, `__setstate__` leaves the copied binding state as it is -/
+theorem restore_false (s : State V) : restore false s = s := rfl
+
+/-- one operation on the system preserves: every instance satisfies the representation invariant and stands for its
+spec map -/
+theorem rel_mstep (params : List String) (sys : List (State V)) (fs : List (String → V)) (h : Rel params sys fs)
+    (mop : MOp V) : Rel params (mstep true false sys mop).1 (mspecStep params fs mop) := by
+  obtain ⟨hl, hr⟩ := h
+  cases mop with
+  | assign i op =>
+    simp only [mstep, mspecStep]
+    cases hs : sys[i]? with
+    | none =>
+      have hi : sys.length ≤ i := List.getElem?_eq_none_iff.mp hs
+      have hf : fs[i]? = none := List.getElem?_eq_none_iff.mpr (by omega)
+      simp only [hf]
+      exact ⟨hl, hr⟩
+    | some s =>
+      have hi : i < sys.length := (List.getElem?_eq_some_iff.mp hs).1
+      have hif : i < fs.length := by omega
+      have hf : fs[i]? = some fs[i] := List.getElem?_eq_getElem hif
+      simp only [hf]
+      obtain ⟨g1, g2, g3⟩ := hr i s fs[i] hs hf
+      refine ⟨by simp [hl], ?_⟩
+      intro j s' f' hs' hf'
+      by_cases hij : i = j
+      · subst hij
+        rw [List.getElem?_set_self hi] at hs'
+        rw [List.getElem?_set_self hif] at hf'
+        simp only [Option.some.injEq] at hs' hf'
+        subst hs' hf'
+        by_cases hv : valid params op
+        · obtain ⟨s2, h1, h2, h3, h4⟩ := step_of_valid true s g1 op (g2 ▸ hv)
+          rw [h1, if_pos hv]
+          exact ⟨h2, by rw [h3, g2], by rw [h4, g2, g3]⟩
+        · have hne : (step true s op).2 ≠ none := by
+            rw [step_err]; exact invalid_rejected s op (g2 ▸ hv)
+          rw [rejected_leaves_state s op hne, if_neg hv]
+          exact ⟨g1, g2, g3⟩
+      · rw [List.getElem?_set_ne hij] at hs' hf'
+        exact hr j s' f' hs' hf'
+  | clone i =>
+    simp only [mstep, mspecStep]
+    cases hs : sys[i]? with
+    | none =>
+      have hi : sys.length ≤ i := List.getElem?_eq_none_iff.mp hs
+      have hf : fs[i]? = none := List.getElem?_eq_none_iff.mpr (by omega)
+      simp only [hf]
+      exact ⟨hl, hr⟩
+    | some s =>
+      have hi : i < sys.length := (List.getElem?_eq_some_iff.mp hs).1
+      have hif : i < fs.length := by omega
+      have hf : fs[i]? = some fs[i] := List.getElem?_eq_getElem hif
+      simp only [hf, restore_false]
+      obtain ⟨g1, g2, g3⟩ := hr i s fs[i] hs hf
+      refine ⟨by simp [hl], ?_⟩
+      intro j s' f' hs' hf'
+      by_cases hj : j < sys.length
+      · rw [List.getElem?_append_left hj] at hs'
+        rw [List.getElem?_append_left (by omega)] at hf'
+        exact hr j s' f' hs' hf'
+      · have hj' : sys.length ≤ j := by omega
+        rw [List.getElem?_append_right hj'] at hs'
+        rw [List.getElem?_append_right (by omega)] at hf'
+        rw [hl] at hs'
+        cases hk : j - fs.length with
+        | zero =>
+          rw [hk] at hs' hf'
+          simp only [List.getElem?_cons_zero, Option.some.injEq] at hs' hf'
+          subst hs' hf'
+          exact ⟨g1, g2, g3⟩
+        | succ k =>
+          rw [hk] at hs'
+          simp at hs'
+
+theorem rel_mrun (params : List String) (ops : List (MOp V)) (sys : List (State V)) (fs : List (String → V))
+    (h : Rel params sys fs) : Rel params (mrun true false sys ops) (mspecRun params fs ops) := by
+  induction ops generalizing sys fs with
+  | nil => exact h
+  | cons op ops ih => exact ih _ _ (rel_mstep params sys fs h op)
+
+
+theorem rel_init (params : List String) (hnd : params.Nodup) :
+    Rel params [init (V := V) params] [fun _ => (0 : V)] := by
+  refine ⟨rfl, ?_⟩
+  intro j s f hs hf
+  cases j with
+  | zero =>
+    simp only [List.getElem?_cons_zero, Option.some.injEq] at hs hf
+    subst hs hf
+    refine ⟨good_init params hnd, rfl, ?_⟩
+    funext n; simp [Params.abs, lastVal, State.items, init, lv]
+  | succ k => simp at hs
+
+/-- **copies_bind_by_name.**  For every list of distinct declared names and EVERY history of assignments (any format,
+accepted or rejected) addressed to any live instance, interleaved with `copy.deepcopy` of any instance at any moment:
+in every instance - original or copy, copy of a copy - `_paramValue[i]` is the value the two-line spec gives `params[i]`
+in THAT instance's map: what its original had when the copy was made, overridden by what the copy itself was assigned
+since.  Assignments to one instance never change another. -/
+theorem copies_bind_by_name (params : List String) (hnd : params.Nodup) (ops : List (MOp V)) (j : Nat) (s : State V)
+    (hs : (mrun true false [init params] ops)[j]? = some s) :
+    ∃ f, (mspecRun params [fun _ => (0 : V)] ops)[j]? = some f ∧
+      ∀ (i : Nat) (hi : i < params.length), s.pv[i]? = some (f params[i]) := by
+  obtain ⟨hl, hr⟩ := rel_mrun params ops _ _ (rel_init (V := V) params hnd)
+  have hj : j < (mrun true false [init params] ops).length := (List.getElem?_eq_some_iff.mp hs).1
+  have hjf : j < (mspecRun params [fun _ => (0 : V)] ops).length := by omega
+  refine ⟨_, List.getElem?_eq_getElem hjf, ?_⟩
+  obtain ⟨g1, g2, g3⟩ := hr j s _ hs (List.getElem?_eq_getElem hjf)
+  intro i hi
+  have hi' : i < s.params.length := by rw [g2]; exact hi
+  rw [pv_get s g1 i hi', g3]
+  simp [g2]
+
+/-- the name -> value map the `parameters` getter shows is the original's under either `__setstate__` (which is why
+a `__setstate__` that rebuilds `_paramValue` wrongly is invisible through the getter) -/
+theorem restore_preserves_abs (rebuild : Bool) (s : State V) : Params.abs (restore rebuild s) = Params.abs s := by
+  cases rebuild <;> rfl
+
+/-- **a `__setstate__` that rebuilds `_paramValue` from `list(_parameters.values())`** (insertion order of the map instead
+of declared order): after a permuted pair list the copy's map still reads b=5, g=7, but its `_paramValue` is `[7, 5]`:
+the copy evaluates with the values attached to the wrong parameters.  As written (`rebuild = false`) it is `[5, 7]`. -/
+theorem setstate_rebuild_counterexample :
+    let params := ["b", "g"]
+    let ops : List (MOp Int) := [.assign 0 (.pairs [(.str "g", 7), (.str "b", 5)]), .clone 0]
+    (mrun true false [init params] ops).map (fun s => s.pv) = [[5, 7], [5, 7]]
+    ∧ (mrun true true [init params] ops).map (fun s => s.pv) = [[5, 7], [7, 5]]
+    ∧ (mrun true true [init params] ops).map (fun s => params.map (Params.abs s)) = [[5, 7], [5, 7]]
+    ∧ (mspecRun params [fun _ => 0] ops).map (fun f => params.map f) = [[5, 7], [5, 7]] := by
+  decide
+
 
 /-! ## the code as written is not atomic: counterexamples (values in `Int`, by evaluation) -/
 
